@@ -63,27 +63,114 @@ ClientStart(c) ==
              \/ "wait" \in Ops /\ WaitSend(c)
              \/ "set_max" \in Ops /\ \E m \in SetMaxSet : SetMax(c, m)
 
+\* one named operator per action of Cache.tla: TLC then reports coverage (-coverage) per action
+Keep == UNCHANGED <<nextVal, ops>>
+MCInsSend(c) == Keep /\ InsSend(c)
+MCRemSend(c) == Keep /\ RemSend(c)
+MCRemSendA(c) == Keep /\ RemSendA(c)
+MCRemBlock(c) == Keep /\ RemBlock(c)
+MCRemRet(c) == Keep /\ RemRet(c)
+MCClrPolicy(c) == Keep /\ ClrPolicy(c)
+MCClrStore(c) == Keep /\ ClrStore(c)
+MCClrMetrics(c) == Keep /\ ClrMetrics(c)
+MCClsStopSend(c) == Keep /\ ClsStopSend(c)
+MCClsStopFail(c) == Keep /\ ClsStopFail(c)
+MCClsPol(c) == Keep /\ ClsPol(c)
+MCClsPolSend(c) == Keep /\ ClsPolSend(c)
+MCClsPolLate(c) == Keep /\ ClsPolLate(c)
+MCClsStopLate(c) == Keep /\ ClsStopLate(c)
+MCClsPolFail(c) == Keep /\ ClsPolFail(c)
+MCClsPolFlag(c) == Keep /\ ClsPolFlag(c)
+MCClsFlag(c) == Keep /\ ClsFlag(c)
+MCWaitBlock(c) == Keep /\ WaitBlock(c)
+MCWaitRet(c) == Keep /\ WaitRet(c)
 ClientStep(c) ==
-    /\ UNCHANGED <<nextVal, ops>>
-    /\ \/ InsSend(c) \/ RemSend(c) \/ RemSendA(c) \/ RemBlock(c) \/ RemRet(c) \/ ClrPolicy(c) \/ ClrStore(c) \/ ClrMetrics(c)
-       \/ ClsStopSend(c) \/ ClsStopFail(c) \/ ClsPol(c) \/ ClsPolSend(c) \/ ClsPolLate(c) \/ ClsStopLate(c) \/ ClsPolFail(c) \/ ClsPolFlag(c) \/ ClsFlag(c)
-       \/ WaitBlock(c) \/ WaitRet(c)
+    \/ MCInsSend(c)
+    \/ MCRemSend(c)
+    \/ MCRemSendA(c)
+    \/ MCRemBlock(c)
+    \/ MCRemRet(c)
+    \/ MCClrPolicy(c)
+    \/ MCClrStore(c)
+    \/ MCClrMetrics(c)
+    \/ MCClsStopSend(c)
+    \/ MCClsStopFail(c)
+    \/ MCClsPol(c)
+    \/ MCClsPolSend(c)
+    \/ MCClsPolLate(c)
+    \/ MCClsStopLate(c)
+    \/ MCClsPolFail(c)
+    \/ MCClsPolFlag(c)
+    \/ MCClsFlag(c)
+    \/ MCWaitBlock(c)
+    \/ MCWaitRet(c)
 
+MCPNewAdd == Keep /\ \E path \in {"oversize", "present", "room", "evicted", "rejected"}, vs \in VictimSeqs, a \in BOOLEAN : PNewAdd(path, vs, a)
+MCPNewStore == Keep /\ PNewStore
+MCPVictim == Keep /\ PVictim
+MCPUpd == Keep /\ PUpd
+MCPDel == Keep /\ PDel
+MCPDelPolicy == Keep /\ PDelPolicy
+MCPWait == Keep /\ PWait
+MCPClrTake == Keep /\ PClrTake
+MCPCleanItem == Keep /\ PCleanItem
+MCPCleanEnd == Keep /\ PCleanEnd
+MCPCleanupDone == Keep /\ PCleanupDone
+MCPTick == Keep /\ TickOn /\ PTick
+MCPCleanupKey == Keep /\ \E i \in Idx : PCleanupKey(i)
+MCPStop == Keep /\ \E c \in Clients : PStop(c)
+MCLStop == Keep /\ \E c \in Clients : LStop(c)
 ProcStep ==
-    /\ UNCHANGED <<nextVal, ops>>
-    /\ \/ \E path \in {"oversize", "present", "room", "evicted", "rejected"}, vs \in VictimSeqs, a \in BOOLEAN :
-              PNewAdd(path, vs, a)
-       \/ PNewStore \/ PVictim \/ PUpd \/ PDel \/ PDelPolicy \/ PWait
-       \/ PClrTake \/ PCleanItem \/ PCleanEnd
-       \/ (TickOn /\ PTick) \/ (\E i \in Idx : PCleanupKey(i)) \/ PCleanupDone
-       \/ \E c \in Clients : PStop(c)
-       \/ \E c \in Clients : LStop(c)
-
+    \/ MCPNewAdd
+    \/ MCPNewStore
+    \/ MCPVictim
+    \/ MCPUpd
+    \/ MCPDel
+    \/ MCPDelPolicy
+    \/ MCPWait
+    \/ MCPClrTake
+    \/ MCPCleanItem
+    \/ MCPCleanEnd
+    \/ MCPCleanupDone
+    \/ MCPTick \/ MCPCleanupKey \/ MCPStop \/ MCLStop
 
 Clock == /\ UNCHANGED <<nextVal, ops>>
          /\ \E dt \in AdvSet : now + dt <= MaxNow /\ Advance(dt)
 
-MCNext == (\E c \in Clients : ClientStart(c) \/ ClientStep(c)) \/ ProcStep \/ Clock
+MCNext ==
+    \/ \E c \in Clients : ClientStart(c)
+    \/ \E c \in Clients : MCInsSend(c)
+    \/ \E c \in Clients : MCRemSend(c)
+    \/ \E c \in Clients : MCRemSendA(c)
+    \/ \E c \in Clients : MCRemBlock(c)
+    \/ \E c \in Clients : MCRemRet(c)
+    \/ \E c \in Clients : MCClrPolicy(c)
+    \/ \E c \in Clients : MCClrStore(c)
+    \/ \E c \in Clients : MCClrMetrics(c)
+    \/ \E c \in Clients : MCClsStopSend(c)
+    \/ \E c \in Clients : MCClsStopFail(c)
+    \/ \E c \in Clients : MCClsPol(c)
+    \/ \E c \in Clients : MCClsPolSend(c)
+    \/ \E c \in Clients : MCClsPolLate(c)
+    \/ \E c \in Clients : MCClsStopLate(c)
+    \/ \E c \in Clients : MCClsPolFail(c)
+    \/ \E c \in Clients : MCClsPolFlag(c)
+    \/ \E c \in Clients : MCClsFlag(c)
+    \/ \E c \in Clients : MCWaitBlock(c)
+    \/ \E c \in Clients : MCWaitRet(c)
+    \/ MCPNewAdd
+    \/ MCPNewStore
+    \/ MCPVictim
+    \/ MCPUpd
+    \/ MCPDel
+    \/ MCPDelPolicy
+    \/ MCPWait
+    \/ MCPClrTake
+    \/ MCPCleanItem
+    \/ MCPCleanEnd
+    \/ MCPCleanupDone
+    \/ MCPTick \/ MCPCleanupKey \/ MCPStop \/ MCLStop
+    \/ Clock
 
 MCSpec == MCInit /\ [][MCNext]_mcvars
 
